@@ -19,30 +19,30 @@ func init() {
 
 	register(&core.Rule{ID: "C10.1", Prop: "C10", MinSites: 4,
 		Desc: "ring before list: in Read, Peek, Discard and WriteTo of elastic.Buffer every list call is preceded by the ring call on all paths",
-		Run: runC10_1})
+		Run:  runC10_1})
 	register(&core.Rule{ID: "C10.2", Prop: "C10", MinSites: 4,
 		Desc: "write routing: Write, Writev and ReadFrom put data into the ring only on paths where the list was seen empty and ringBuffer.Buffered() < maxStaticBytes",
-		Run: runC10_2})
+		Run:  runC10_2})
 	register(&core.Rule{ID: "C10.3", Prop: "C10", MinSites: 2,
 		Desc: "Buffered() adds ring and list bytes; IsEmpty() requires both halves empty",
-		Run: runC10_3})
+		Run:  runC10_3})
 	register(&core.Rule{ID: "C10.4", Prop: "C10", MinSites: 3,
 		Desc: "benign-empty discipline: Read/Discard/WriteTo return before consulting the list only when the ring satisfied the request, or on an error of a ring known to be non-empty",
-		Run: runC10_4})
+		Run:  runC10_4})
 	register(&core.Rule{ID: "C10.7", Prop: "C10", MinSites: 2,
 		Desc: "Peek bounds: elastic.Buffer.Peek validates n against Buffered() of both halves, and linkedlist.PeekWithBytes validates its bound against the list bytes plus the prefix segments it is given (not the list alone)",
-		Run: runC10_7})
+		Run:  runC10_7})
 	register(&core.Rule{ID: "C10.5", Prop: "C10", MinSites: 6,
 		Desc: "elastic.RingBuffer: rbPool.Put(b.rb) is followed by b.rb = nil on the same path; Discard/Read/ReadByte/WriteTo defer done() before touching the ring",
-		Run: runC10_5})
+		Run:  runC10_5})
 }
 
 type elAnch struct {
-	pk               string
+	pk                 string
 	ringF, listF, maxF *types.Var
-	rbField          *types.Var
-	funcs            map[string]*fn
-	rfuncs           map[string]*fn
+	rbField            *types.Var
+	funcs              map[string]*fn
+	rfuncs             map[string]*fn
 }
 
 func elAnchors(c *core.Ctx) *elAnch {
